@@ -385,6 +385,16 @@ def _run(prop, tier, seed, backends, limited):
             spell = spelling_reqs(uni)
             sc = sc + [tuple(x for s_ in h for x in (("submit", s_), ("drain",))) + tuple(("rawquery", c, a) for c, a in spell)
                        for h in histories[:2]]
+        if prop in ("C02", "C12") and pal == palettes[0]:
+            # through the connection handler: a seeded sample of the REQs on one connection per script, two subscription ids
+            # re-used over and over without CLOSE (each REQ replaces a subscription that has been answered already, and
+            # most answers overlap with the previous one under the same id)
+            rw = random.Random(seed + 7)
+            sample = [reqs[k] for k in sorted(rw.sample(range(len(reqs)), min(len(reqs), 240 if tier == "quick" else 2400)))]
+            for h in histories[:2]:
+                pre = tuple(x for s_ in h for x in (("submit", s_), ("drain",)))
+                sc = sc + [pre + tuple(("wsquery", fs, "feed" if n % 3 else "other") for n, fs in enumerate(sample[b:b + 120]))
+                           for b in range(0, len(sample), 120)]
         for backend in backends:
             jobs.append({"uni": uni, "backend": backend, "scripts": sc, "palette": pal, "max_limit": max_limit})
     import os
